@@ -245,6 +245,9 @@ class World:
         self.drops = {(int(l), int(n)) for l, n in (net.get('drops') or [])}
         self.ties = net.get('ties') or [0]
         self.flush_on_reconnect = net.get('flush', True)
+        self.drops_to = {(a, b, int(n)) for a, b, n in (net.get('drops_to') or [])}   # (publishing actor, receiving actor, n): the n-th publish on that pair is lost (what PUB/SUB may do to a slow or connecting listener)
+        self.pair_ctr = {}
+        self.reconn_lag_ms = net.get('reconn_lag_ms') or 0    # > 0: on re-connection the SUB side comes back this much later than the request side; < 0: the other way round
         self.sub_hwm = net.get('sub_hwm')         # optional bound on a SUB socket's queue (messages); beyond it a publish is dropped, as PUB/SUB does at its high-water marks
         self.keyed = bool(net.get('keyed'))   # delay/connect tables chosen by (client, server, type) instead of creation order: stable when actors are added/removed
         self.delay_ctr = {}
@@ -283,6 +286,10 @@ class World:
     def schedule_connect(self, client, server):
         i = zlib.crc32(repr(self.link_key(client, server)).encode()) if self.keyed else next(self.conn_count)
         d = self.conn_delays[i % len(self.conn_delays)] * 1000
+        if getattr(client, 'ever_linked', False) and self.reconn_lag_ms:     # a *re*-connection: the two TCP connections of one consumer come back independently
+            lag = self.reconn_lag_ms * 1_000_000
+            if (lag > 0 and client.typ == SUB) or (lag < 0 and client.typ == PUSH):
+                d += abs(lag)
         self.push_event(self.now + d, ('connect', client, server))
 
     def wire(self, kind, sock, msg):
@@ -294,6 +301,13 @@ class World:
         if link.src.typ == PUB and (link.lid, n) in self.drops:
             self.log.append(('drop', self.now, link.src.actor.name, link.dst.actor.name, link.lid, msg))
             return
+        if link.src.typ == PUB and self.drops_to:
+            pair = (link.src.actor.name, link.dst.actor.name)
+            i = self.pair_ctr.get(pair, 0)
+            self.pair_ctr[pair] = i + 1
+            if pair + (i,) in self.drops_to:
+                self.log.append(('drop', self.now, pair[0], pair[1], link.lid, msg))
+                return
         tab = self.delay_tables[(link.key if self.keyed else link.lid) % len(self.delay_tables)]
         i = self.delay_ctr.get(link.lid, 0)
         self.delay_ctr[link.lid] = i + 1
